@@ -94,7 +94,9 @@ def gen_case(rnd, idx, forced_ctx=None, forced_root=None, n=None):
     for i in range(n):
         fields = [("id", "i32")]
         for k, (j, lab, ty) in enumerate(edges[i]):
-            fields.append(("f%d" % k, q(rg.rust(rg.strip_refs(ty)))))
+            # a field's visibility has no bearing on what serde puts on the wire: private and pub(crate) fields reach their types too
+            vis = "" if (idx + i + k) % 4 else rnd.choice(["priv:", "crate:"])
+            fields.append((vis + "f%d" % k, q(rg.rust(rg.strip_refs(ty)))))
         derives = None if i in nonserde else rnd.choice(["Serialize, Deserialize", "Serialize", "Deserialize", "serde::Serialize, serde::Deserialize"])
         style = rnd.choice(rg.DERIVE_STYLES)
         if kinds[i] == "enum":
@@ -157,6 +159,14 @@ def gen_case(rnd, idx, forced_ctx=None, forced_root=None, n=None):
     cmds.append(rg.command_src("anchor_%d" % idx, [("x", "i32")], "i32"))
     body.setdefault("lib.rs", []).extend(cmds)
     files = [(p, HDR + "".join(rnd.sample(v, len(v)) if p != "lib.rs" else v)) for p, v in body.items()]
+    if idx % 5 == 4 and len(files) > 1:
+        # a models file shared between crates: under the project path it is a symbolic link to a regular file outside it
+        k = next((k for k, (p, _) in enumerate(files) if p != "lib.rs"), None)
+        if k is not None:
+            p, text = files[k]
+            depth = p.count("/") + 1
+            files[k] = ("../shared_models/m%d.rs" % idx, text)
+            files.append((p, "\0symlink:" + "../" * depth + "shared_models/m%d.rs" % idx))
     rnd.shuffle(files)
     # ground truth
     reach = set()
